@@ -106,6 +106,13 @@ class C05(Check):
         for sub in scn["subs"]:
             # the application keeps ONE list as its outbox: fills it, hands it to send_messages(), clears it
             sub["reuse_list"] = rng2.random() < 0.35
+        if index % 4 not in (1, 3) and rng2.random() < 0.3:
+            # size boundaries: a message exactly 2^k (+- 4) bytes long, or exactly the send-batch limit (+- 4)
+            lim = scn["knobs"]["SEND_BUFFER_MAXIMUM_SIZE"]
+            op = rng2.choice(rng2.choice(scn["subs"])["ops"])
+            op["targets"] = [None] * op["n"]
+            op["targets"][rng2.randrange(op["n"])] = rng2.choice(
+                [252, 256, 260, 1024, 4096, 65532, 65536, 65540] + ([lim - 4, lim, lim + 4, 2 * lim] if lim <= 65536 else [lim]))
         return scn
 
     def shrink(self, scn):
@@ -202,7 +209,10 @@ class C05(Check):
             def on_sel(sel, ready):
                 pass
 
-            def make(si, seq, kind, pad):
+            def make(si, seq, kind, pad, target=None):
+                if target:
+                    base_len = len(make(si, seq, kind, 0)[0].dump())
+                    pad = max(1, target - base_len - 8)
                 tag = ("s%d-%03d" % (si, seq)).encode()
                 avps = [SessionIdAVP(("node;%d;%d" % (si, seq)).encode()), OriginHostAVP(NODE_HOST),
                         OriginRealmAVP(NODE_REALM)]
@@ -227,7 +237,7 @@ class C05(Check):
                 for op in spec["ops"]:
                     batch = outbox if spec.get("reuse_list") else []
                     for j in range(op["n"]):
-                        m, tag = make(si, seq, op["kinds"][j], op["pads"][j])
+                        m, tag = make(si, seq, op["kinds"][j], op["pads"][j], (op.get("targets") or [None] * op["n"])[j])
                         raw = m.dump()
                         batch.append(m)
                         submitted.append({"sub": si, "seq": seq, "raw": raw, "tag": tag, "t": sim.now, "count": 1})
